@@ -165,6 +165,10 @@ Definition check_op (cfg : config) (h : list op) (cur : nstate) (o : op)
       match r with RNone => true | _ => false end && is_nil evs
       && forallb (fun x => is_kquery (snd x) && hosted cfg (fst x) && asks o (fst x)
                            && negb (hidden h (fst x))) sends
+      (* the support query reaches every hosted service it is meant for that runs and can be
+         resolved: the services the controller enumerates are the services the node started *)
+      && forallb (fun n => negb (asks o n) || hidden h n || negb (present cfg n)
+                           || existsb (fun x => Z.eqb (fst x) n && is_kquery (snd x)) sends) (names cfg)
   | OSvcCmd _ _ | ONotify _ | OStopDone _ => is_nil sends
   | OHide _ | OShow _ | OTopo _ =>
       (* a topology publication changes the directory and nothing else: nothing is published
